@@ -745,6 +745,27 @@ func TestKeys(t *testing.T) {
 			}
 			r.log(row)
 		}
+		// prefix objects are values of their own: using one of them (Append builds a longer chain from it) must leave every other prefix
+		// object, the chain they were cut from, and their cached keys describing the same content as before
+		if n >= 2 {
+			orig := make([]string, n)
+			for k := 1; k <= n; k++ {
+				orig[k-1] = hx((&gpbft.ECChain{TipSets: cloneTipSets(tipsets[:k])}).Key())
+			}
+			fresh := randTipSets(rng, 2)
+			for _, j := range []int{1, (n + 1) / 2} {
+				if j < n {
+					_ = allp[j-1].Append(fresh[0], fresh[1])
+					_ = chain.Prefix(j - 1).Append(fresh[1])
+					_ = allp[n-1].Prefix(j - 1).Append(fresh[0])
+				}
+			}
+			for k := 1; k <= n; k++ {
+				r.log(map[string]any{"ev": "KeyAfter", "n": n, "k": k, "orig": orig[k-1],
+					"cached": hx(allp[k-1].Key()), "cached_content": hx((&gpbft.ECChain{TipSets: cloneTipSets(allp[k-1].TipSets)}).Key()),
+					"chain_prefix": hx((&gpbft.ECChain{TipSets: cloneTipSets(chain.TipSets[:k])}).Key()), "cached_len": allp[k-1].Len()})
+			}
+		}
 	}
 	n := r.n
 	r.log(map[string]any{"ev": "End", "rows": n})
